@@ -35,6 +35,14 @@ def universe_hash():
     return U.content_hash()
 
 
+def canon_signature(atom):
+    """Non-termination is one mechanism class.  The function the step budget ran out in, and whether the
+    budget exception or the CPU watchdog ended the parse, depend on how many steps earlier documents of
+    the same worker spent on first-use code paths: they go into the witness detail, not into the signature
+    (baselines written before this was learnt are read through this mapping)."""
+    return "nonterminating" if str(atom).startswith(("loop:", "stall:")) else atom
+
+
 # ---- scaling families ---------------------------------------------------------------------
 def _fam(name, n):
     f = FAMILIES[name]
@@ -147,12 +155,12 @@ def run_items(items, job):
                 R.viol.append([key, sig, {"doc": doc, "error": pm.exc_text(val), "steps": steps}])
                 R.distinct.add(PL.mix(sig, n) & 0xFFFFFFFFFFFF)
             elif kind == "budget":
-                R.viol.append([key, "loop:" + val, {"doc": doc, "steps": steps, "budget": budget(n), "stacks": [s[-6:] for s in ctr.snaps]}])
+                R.viol.append([key, "nonterminating", {"doc": doc, "how": "step budget exceeded: " + val, "steps": steps, "budget": budget(n), "stacks": [s[-6:] for s in ctr.snaps]}])
             else:
                 # CPU consumed without function entries (work inside a C extension such as the regular
                 # expression engine is invisible to the step counter): 20 s of *process* CPU time on one
                 # document is four orders of magnitude above the slowest pinned-tree parse
-                R.viol.append([key, "stall:no-python-progress", {"doc": doc, "steps": steps, "cpu_s": STALL_CPU_S}])
+                R.viol.append([key, "nonterminating", {"doc": doc, "how": "CPU time consumed without function entries (inside a C extension)", "steps": steps, "cpu_s": STALL_CPU_S}])
     finally:
         ctr.stop()
     # max over shards is not additive: report separately
